@@ -289,6 +289,92 @@ def c_function(txt, name):
     return params, st[1]
 
 
+def c_function_text(txt, name):
+    """raw text of the body of a function of the preprocessed text, or None"""
+    m = re.search(r"\b%s\s*\(([^;{)]*)\)\s*\{" % re.escape(name), txt)
+    if not m:
+        return None
+    i, depth = m.end(), 1
+    while i < len(txt) and depth:
+        depth += {"{": 1, "}": -1}.get(txt[i], 0)
+        i += 1
+    return txt[m.end():i]
+
+
+INTERN_FUNCS = ("dr_string_table_find", "dr_string_table_append", "dr_string_table_intern", "dr_string_table_flatten")
+
+
+def translate_wrapper(txt, problems):
+    """dr_string_table_intern as a list of wstmt (coq/DagFile/InternModel.v): the model intern_sem is
+    [WFind; WAppendIfNew; WReturnIdx] and nothing else; any other statement is WOther.  Also counts the
+    `static` locals of the four interning functions."""
+    fi = c_function(txt, "dr_string_table_intern")
+    if not fi:
+        problems.append("dr_string_table_intern not found in dr_dump.c")
+        return ["WOther"], 0
+    params, body = fi
+    if len(params) != 2:
+        problems.append("dr_string_table_intern: expected the parameters (table, string)")
+        return ["WOther"], 0
+    t, key = params
+    call = "dr_string_table_find(%s,%s)" % (t, key)
+    app = "dr_string_table_append(%s,%s)" % (t, key)
+    stmts, idx = [], None
+
+    def flat(st):
+        if st[0] == "block":
+            return [y for x in st[1] for y in flat(x)]
+        return [st]
+    for st in body:
+        k = st[0]
+        j = "".join(st[1]) if k in ("expr", "return") else ""
+        if k == "expr" and "static" not in st[1]:
+            tk = st[1]
+            nc = len(c_tokens(call))
+            if len(tk) >= nc + 2 and tk[-nc - 1] == "=" and "".join(tk[-nc:]) == call and \
+               all(x in ("long", "int", "unsigned", "signed", "size_t", "ssize_t") for x in tk[:-nc - 2]) and idx is None:
+                idx = tk[-nc - 2]
+                stmts.append("WFind")
+                continue
+            if len(tk) >= 2 and all(x in ("long", "int", "unsigned", "signed", "size_t", "ssize_t") for x in tk[:-1]) and \
+               re.match(r"^[A-Za-z_]\w*$", tk[-1]) and tk[-1] not in (t, key):
+                continue                                # a plain declaration without initialiser
+        if k == "if" and idx and st[3] is None and "".join(st[1]) in ("%s==%s->n" % (idx, t), "%s->n==%s" % (t, idx)):
+            inner = flat(st[2])
+            if len(inner) == 1 and inner[0][0] == "expr" and "".join(inner[0][1]) == app:
+                stmts.append("WAppendIfNew")
+                continue
+        if k == "return" and idx and j == idx:
+            stmts.append("WReturnIdx")
+            continue
+        stmts.append("WOther")
+        problems.append("dr_string_table_intern: statement outside find / append-if-new / return index: `%s`"
+                        % (" ".join(_all_tokens(st)) or k)[:120])
+    nstatic = 0
+    for fn in INTERN_FUNCS:
+        bt = c_function_text(txt, fn)
+        c = len([x for x in c_tokens(bt or "") if x == "static"])
+        if c:
+            problems.append("%s: %d `static` local(s): the function keeps state between calls, the table is not a function of the names of this dump" % (fn, c))
+        nstatic += c
+    if stmts != ["WFind", "WAppendIfNew", "WReturnIdx"] and not any(p.startswith("dr_string_table_intern: statement") for p in problems):
+        problems.append("dr_string_table_intern is not `idx = find(t, s); if (idx == t->n) append(t, s); return idx;`")
+    return stmts, nstatic
+
+
+def writable_data_symbols(obj):
+    """names of the writable data symbols (file-scope or function-static variables) defined by an object file"""
+    rc, out = vlib.sh(["nm", obj], timeout=60)
+    if rc != 0:
+        return None
+    res = []
+    for l in out.split("\n"):
+        w = l.split()
+        if len(w) == 3 and w[1] in "bBdDsSgGC":
+            res.append(w[2])
+    return res
+
+
 def _strip(toks):
     while len(toks) >= 2 and toks[0] == "(" and _match(toks, 0, "(", ")") == len(toks) - 1:
         toks = toks[1:-1]
@@ -343,7 +429,9 @@ def translate_intern(txt):
         R.problems.append("dr_string_table_find / _append / _flatten not found in dr_dump.c")
         R.find = (False, False, False, [])
         R.store = ("CopyOther", "CopyOther", False, False)
+        R.wrap = (["WOther"], 0)
         return R
+    R.wrap = translate_wrapper(txt, R.problems)
     # ---- append: which field holds the string, which fields hold its length
     aparams, abody = fa
     akey = aparams[-1]
@@ -598,7 +686,7 @@ def _all_tokens(st):
     return []
 
 
-def gen_intern_v(ctx):
+def gen_intern_v(ctx, exe=None):
     """translate the interning code of the current tree, write build/C19/gen/DrIntern.v, evaluate the checkers.
     Returns (ok, messages, log)"""
     src = os.path.join(prof_dir(), "dr_dump.c")
@@ -611,6 +699,21 @@ def gen_intern_v(ctx):
         return False, ["the interning code of dr_dump.c could not be parsed (%s)" % e], ""
     la, io, nf, exits = R.find
     b = lambda x: "true" if x else "false"
+    wst, nstatic = R.wrap
+    ndata = 0
+    if exe:
+        syms = writable_data_symbols(os.path.join(os.path.dirname(exe), "dr_dump.o"))
+        if syms:
+            # statics defined by the shared headers (dr_options_default_values) show up in every profiler object
+            for o in PROF_SRCS:
+                if o != "dr_dump.c":
+                    syms = [x for x in syms if x not in (writable_data_symbols(os.path.join(os.path.dirname(exe), o.replace(".c", ".o"))) or [])]
+        if syms is None:
+            ndata = 1
+            R.problems.append("dr_dump.o: nm failed, writable data symbols unknown")
+        elif syms:
+            ndata = len(syms)
+            R.problems.append("dr_dump.o defines writable data (%s): dr_dump keeps state between two dumps of one process" % ", ".join(syms[:6]))
     gd = os.path.join(ctx.dir, "gen")
     os.makedirs(gd, exist_ok=True)
     txt = "\n".join([
@@ -622,7 +725,10 @@ def gen_intern_v(ctx):
         "   %s *)" % " | ".join(" && ".join(x) for x in R.exits_src).replace("*)", "* )"),
         "Definition cur_find : find_ir := mk_find_ir %s %s %s [%s]." % (b(la), b(io), b(nf), "; ".join("[" + "; ".join(r) + "]" for r in exits)),
         "Definition cur_store : store_ir := mk_store_ir %s %s %s %s." % (R.store[0], R.store[1], b(R.store[2]), b(R.store[3])),
+        "Definition cur_wrap : wrap_ir := mk_wrap_ir [%s] %d %d." % ("; ".join(wst), nstatic, ndata),
         "Lemma cur_find_ok : find_ok cur_find = true.",
+        "Proof. vm_compute. reflexivity. Qed.",
+        "Lemma cur_wrap_ok : wrap_ok cur_wrap = true.",
         "Proof. vm_compute. reflexivity. Qed.",
         "Lemma cur_store_ok : store_ok cur_store = true.",
         "Proof. vm_compute. reflexivity. Qed.",
@@ -639,7 +745,7 @@ def gen_intern_v(ctx):
     ok = rc == 0 and "Closed under the global context" in log
     msgs = list(R.problems)
     if not ok and not msgs:
-        msgs.append("find_ok / store_ok evaluate to false on the translated interning code")
+        msgs.append("find_ok / wrap_ok / store_ok evaluate to false on the translated interning code")
     return ok, msgs, log
 
 
@@ -773,18 +879,28 @@ class ProgGen:
         return ["S", b] + items + ["W", self.D()] + self.FL() + [self.D(), self.W()] + self.FL()
 
 
-def gen_case(r, cid, thorough, hexlim=40, keep=0, force=None, before_cleanup=False, wsa_force=None):
+def gen_case(r, cid, thorough, hexlim=40, keep=0, force=None, before_cleanup=False, wsa_force=None, names=None, alt=None,
+             dump2=None):
     """one profiling session.  [force]: values shared with the previous session of a history that is not
-    cleaned up in between (workers, worker-state mode, record-time options, chk)"""
+    cleaned up in between (workers, worker-state mode, record-time options, chk).  [names]: the file names of the
+    session (a history relates them to the previous session's).  alt 0: every name is one pointer (a __FILE__
+    literal), alt 1: two copies at different addresses used alternately.  dump2: dr_dump() is called twice."""
     nw = r.rng(1, 8)
     nf = r.choice([1, 1, 2, 3, 5, 8, 13, 50, r.rng(1, 50)])
+    if names is not None:
+        nf = len(names)
+    if alt is None:
+        alt = 0 if r.chance(1, 3) else 1
+    if dump2 is None:
+        dump2 = 1 if r.chance(1, 6) else 0
     depth = r.choice([0, 1, 2, 2, 3, 3, 4, 5])
     fan = r.choice([0, 1, 2, 2, 3, 3, 4, 5, 6])
     budget = r.choice([6, 20, 50, 100, 200, 300] + ([600, 1200] if thorough else []))
     wsa = 0 if r.chance(1, 5) else 1          # 0: worker states in the linear list + pthread key
     if wsa_force is not None:
         wsa = wsa_force
-    names = gen_names(r, nf)
+    if names is None:
+        names = gen_names(r, nf)
     if force:
         nw = force["nw"]
     prog = ProgGen(r, nw, nf, depth, fan, budget).task(depth, root=True)
@@ -823,11 +939,12 @@ def gen_case(r, cid, thorough, hexlim=40, keep=0, force=None, before_cleanup=Fal
     if force:
         wsa, chk, fam = force["wsa"], force["chk"], force["fam"]
         umin, cmax, nct, pth, cmc = force["rec"]
-    line = "case %d hex %d keep %d nw %d sc %d chk %d wsa %d rec %d %d %d %d %d conv %d %d %d files %d %s prog %s" % (
-        cid, hexlim, keep, nw, sc, chk, wsa, umin, cmax, nct, pth, cmc, c_umin, c_cmax, c_cmc, nf, " ".join(names),
+    line = "case %d hex %d keep %d nw %d sc %d chk %d wsa %d alt %d dump2 %d rec %d %d %d %d %d conv %d %d %d files %d %s prog %s" % (
+        cid, hexlim, keep, nw, sc, chk, wsa, alt, dump2, umin, cmax, nct, pth, cmc, c_umin, c_cmax, c_cmc, nf, " ".join(names),
         " ".join(map(str, prog)))
     meta = {"id": cid, "workers": nw, "files": nf, "depth": depth, "fan": fan, "rec": fam, "conv": cfam,
             "tokens": len(prog), "chk": chk, "wsa": wsa, "nested_sections": prog.count("S") - 0,
+            "names": list(names), "alt": alt, "dump2": dump2,
             "force": {"nw": nw, "wsa": wsa, "chk": chk, "fam": fam, "rec": (umin, cmax, nct, pth, cmc)}}
     return line, meta
 
@@ -836,15 +953,47 @@ def gen_history(r, cid, thorough, keep_first=0):
     """2-3 profiling sessions recorded by ONE process: start/stop/dump[/cleanup]/start/...  Returns
     (harness input line, [(cid, session line)], [meta])"""
     k = r.rng(2, 3)
-    cleanup = 1 if r.chance(3, 4) else 0
+    cleanup = 1 if r.chance(2, 3) else 0
     mode = r.choice([None, None, 0, 0, 1])       # worker-state mode of the sessions: mixed / all list+key / all array
-    sessions, metas, force = [], [], None
+    # the file names of a session in relation to the previous session's (the harness keeps one pool of names per
+    # process, so an equal name is the SAME pointer in every session, like a __FILE__ literal):
+    #   single: one name for everything in every session; same: the same names in the same order; perm: the same
+    #   names in another order; disjoint: no name in common with any earlier session; free: drawn independently
+    single = r.chance(1, 4)
+    alt_mode = r.choice([0, 0, 1, None])         # all sessions one pointer per name / all two copies / mixed
+    one_name = gen_names(r, 1)
+    sessions, metas, force, prev, seen_names = [], [], None, None, set()
     for j in range(k):
+        if single:
+            plan, names = "single", list(one_name)
+        elif j == 0:
+            plan, names = "free", None
+        else:
+            plan = r.choice(["same", "perm", "perm", "disjoint", "free"])
+            if plan == "same":
+                names = list(prev)
+            elif plan == "perm":
+                names = list(prev)
+                if len(names) > 1:
+                    first = names[0]
+                    while names[0] == first:
+                        r.shuffle(names)
+            elif plan == "disjoint":
+                names = []
+                for x in gen_names(r, r.choice([1, 2, 3, 5, 8])):
+                    while x in seen_names or x in names:
+                        x = "s%d_%s" % (j, x)
+                    names.append(x)
+            else:
+                names = None
         line, meta = gen_case(r, cid + j, thorough, keep=(keep_first if j == k - 1 else 0), force=(force if not cleanup else None),
-                              before_cleanup=bool(cleanup), wsa_force=mode)
+                              before_cleanup=bool(cleanup), wsa_force=mode, names=names, alt=alt_mode)
+        prev = meta["names"]
+        seen_names.update(prev)
         if force is None:
             force = meta["force"]
         meta["history"] = "%d sessions, %s" % (k, "dr_cleanup between" if cleanup else "no cleanup between")
+        meta["names_vs_previous_session"] = plan if j > 0 or single else "first"
         sessions.append((cid + j, line))
         metas.append(meta)
     hline = "history h%d %d %d ;; %s" % (cid, k, cleanup, " ;; ".join(l for _, l in sessions))
@@ -1095,7 +1244,10 @@ def validate_dag(D, L):
     if parent[0] is not None:
         return "node 0 has a parent"
     # string table
-    if D.sn < 1 or len(D.I) != D.sn or len(D.names) != D.sn:
+    if D.sn < 1:
+        return "the string table is empty (n=%d) although every node names a start and an end file (node 0: file index %d / %d)" % (
+            D.sn, D.T[0][F_START_FIDX], D.T[0][F_END_FIDX])
+    if len(D.I) != D.sn or len(D.names) != D.sn:
         return "string table: n=%d but %d offsets / %d strings" % (D.sn, len(D.I), len(D.names))
     off = 0
     for k in range(D.sn):
@@ -1243,6 +1395,16 @@ def oracle(case_line, blk, L):
         msg = validate_replay(D, lines, sfx)
         if msg:
             return what + ": " + msg
+    # dr_dump() twice with nothing recorded in between: the same file
+    if " dump2 1 " in case_line.split(" rec ")[0] + " ":
+        if not tagged(lines, "G0"):
+            return "the first of two dumps of the session was not read back"
+        d = first_diff(retag(dag_lines(lines, "0"), "0", ""), dag_lines(lines, ""))
+        if d:
+            return "two dr_dump() calls of one session (nothing recorded in between) wrote different files: first %s  second %s" % (d[1][:100], d[2][:100])
+        sz = tagged(lines, "SIZE0")
+        if not sz or len(set(sz[0].split()[1:])) != 1:
+            return "two dr_dump() calls of one session wrote files of different length (%s)" % (sz[0] if sz else "?")
     # dump / read round trip
     d = first_diff(retag(dag_lines(lines, "2"), "2", ""), retag(dag_lines(lines, "3"), "3", ""))
     if d:
@@ -1266,6 +1428,10 @@ def oracle(case_line, blk, L):
         return "code positions (file names through the string table, lines) differ between the recorded tree and the dumped dag" + ex
     if int(tl.split()[1]) != D1.sc or int(tl.split()[2]) != D1.nw:
         return "start clock / number of workers differ"
+    tw = tl.split()
+    if (D1.names[D1.T[0][F_START_FIDX]], D1.names[D1.T[0][F_END_FIDX]]) != (tw[5], tw[6]):
+        return "the root was recorded from file %s to file %s, the dumped dag names %s and %s" % tuple(
+            bytes.fromhex(x[1:]).decode("latin1") for x in (tw[5], tw[6], D1.names[D1.T[0][F_START_FIDX]], D1.names[D1.T[0][F_END_FIDX]]))
     distinct = set(x for t4 in tp for x in t4[:2])
     if D1.sn != len(distinct) or set(D1.names) != distinct:
         return "%d distinct file names were recorded, the string table of the dumped dag has %d" % (len(distinct), D1.sn)
@@ -1508,7 +1674,7 @@ def run(ctx):
     layout_line = get_layout(exe)
     L = parse_layout(layout_line)
     gen_ok, gen_log = gen_layout_v(ctx, L)
-    int_ok, int_msgs, int_log = gen_intern_v(ctx)
+    int_ok, int_msgs, int_log = gen_intern_v(ctx, exe)
     d2a, d2a_note = None, "src/profiler/dag2any/dag2any.c is not in the tree"
     try:
         d2a = build_dag2any(ctx, exe)
@@ -1520,6 +1686,18 @@ def run(ctx):
     cases, metas, inputs, hist = [], [], [], {}
     cid = 0
     for c in corpus_cases():
+        if c.startswith("history"):
+            # history <id> <k> <cleanup> ;; case .. ;; case ..   (sessions renumbered consecutively)
+            parts = [x.strip() for x in c.split(";;")]
+            sess = [(cid + j, renumber(x, cid + j)) for j, x in enumerate(parts[1:])]
+            hw = parts[0].split()
+            hline = "history h%d %d %s ;; %s" % (cid, len(sess), hw[3], " ;; ".join(l for _, l in sess))
+            inputs.append(hline)
+            for sid, sl in sess:
+                cases.append((sid, sl)); hist[sid] = hline
+                metas.append({"id": sid, "rec": "corpus", "conv": "corpus"})
+            cid += len(sess)
+            continue
         cases.append((cid, renumber(c, cid)))
         inputs.append(renumber(c, cid))
         metas.append({"id": cid, "rec": "corpus", "conv": "corpus"})
@@ -1539,13 +1717,18 @@ def run(ctx):
             dist["depth:%d" % m["depth"]] = dist.get("depth:%d" % m["depth"], 0) + 1
             dist["worker_state:%s" % ("array" if m.get("wsa", 1) else "list+key")] = dist.get("worker_state:%s" % ("array" if m.get("wsa", 1) else "list+key"), 0) + 1
             dist["history:%s" % m.get("history", "single session")] = dist.get("history:%s" % m.get("history", "single session"), 0) + 1
+            for kk in ("names_vs_previous_session:%s" % m.get("names_vs_previous_session", "-"), "name_pointers:%s" % ("one" if m.get("alt") == 0 else "two alternating"),
+                       "dump_twice:%d" % m.get("dump2", 0)):
+                dist[kk] = dist.get(kk, 0) + 1
             if m.get("nested_sections", 0) >= 3:
                 dist["programs_with_3+_sections"] = dist.get("programs_with_3+_sections", 0) + 1
     ctx.cov["correspondence"] = {"cases": len(cases), "disagreements": len(diffs), "oracle_failures": len(failing),
                                  "input_distribution": dist, "result_distribution": stats,
                                  "compared_per_case": "every field of every node, every edge, string table (dump/read and shrunk dag), "
                                                       "event sequence of both replays, file bytes (n<=40) through the model reader and writer; per-kind edge totals "
-                                                      "dumped / shrunk / re-read; sessions of multi-session histories judged like single sessions; "
+                                                      "dumped / shrunk / re-read; sessions of multi-session histories judged like single sessions (file names of a session "
+                                                      "related to the previous one's: single / same / permuted / disjoint / independent; names are the same pointers in all "
+                                                      "sessions of a process); two dr_dump() calls of one session give the same file; "
                                                       "dag2any outputs (stat, dot, gpl, text, sqlite, --shrink) validated structurally",
                                  "layout_regenerated": {"node": L["node"]["size"], "edge": L["edge"]["size"],
                                                         "strtab": L["strtab"]["size"], "wf_and_roundtrip_instance_checked": gen_ok}}
@@ -1555,15 +1738,17 @@ def run(ctx):
         "harness/c19_dump.c: serial simulator of the dr_* API with explicit worker ids and the virtual clock hook "
         "(g_dr_verif_clock); its own walker prints the recorded in-memory tree; the file is re-read by a fresh process image",
         "multi-session histories: one harness process records 2-3 sessions (array or list+pthread-key worker states, with / "
-        "without dr_cleanup between); in list mode the single harness thread is worker 0",
+        "without dr_cleanup between); in list mode the single harness thread is worker 0; file names come from a pool of the "
+        "process (one pointer per name, or two copies used alternately)",
         "dag2any built by this check from src/profiler/dag2any/dag2any.c + the profiler objects (-lsqlite3 when config.h has it); "
         "its outputs are validated by Python text / sqlite3 parsing",
         "layout probe (sizeof/offsetof/signedness printed by harness/c19_dump --layout) and the generated build/C19/gen/DrLayout.v",
         "interning translator in tools/props/c19.py (gcc -E -P of dr_dump.c, C-subset statement parser, classification of the "
-        "conditions guarding each found exit of dr_string_table_find; copy statements of _append / _flatten) and build/C19/gen/DrIntern.v",
+        "conditions guarding each found exit of dr_string_table_find; copy statements of _append / _flatten; statement shape of "
+        "dr_string_table_intern, `static` locals of the four functions, writable data symbols of dr_dump.o via nm) and build/C19/gen/DrIntern.v",
         "modelled, not verified: fwrite/read/mmap themselves; qsort (a sorted permutation); the priority queue of the replay "
         "(any choice order); byte padding inside structs is masked"]
-    ctx.cov["correspondence"]["interning_translated"] = {"find_ok_and_store_ok": int_ok, "messages": int_msgs}
+    ctx.cov["correspondence"]["interning_translated"] = {"find_ok_wrap_ok_and_store_ok": int_ok, "messages": int_msgs}
     report(ctx, failing, diffs, broken, log, gen_ok, gen_log, exe, drv, layout_line, L, int_ok, int_msgs, int_log)
     ctx.cov["evaluations"] = len(cases)
     ctx.cov["distinct_nontrivial"] = len(set(c for _, c in cases)) - dist.get("depth:0", 0)
@@ -1630,7 +1815,9 @@ def report(ctx, failing, diffs, broken, log, gen_ok, gen_log, exe, drv, layout_l
     if not int_ok:
         ctx.violation("generated-data", "string interning of the current dr_dump.c is not shown injective on contents: " + "; ".join(int_msgs)[:600],
                       {"theorem_or_correspondence": "build/C19/gen/DrIntern.v: cur_find_ok / cur_store_ok (find_ok, store_ok of "
-                                                    "coq/DagFile/InternModel.v) on the code translated from dr_string_table_find / _append / _flatten; "
+                                                    "coq/DagFile/InternModel.v) / cur_wrap_ok (wrap_ok: dr_string_table_intern is find, append-if-new, return "
+                                                    "index, without static locals; dr_dump.o without writable data) on the code translated from "
+                                                    "dr_string_table_find / _intern / _append / _flatten; "
                                                     "hypothesis of C19_intern_injective",
                        "functions": [m.split(":")[0] for m in int_msgs], "messages": list(int_msgs), "log": int_log[-2000:]}, found=False)
     if not gen_ok:
